@@ -742,3 +742,61 @@ def desugar_qmark(toks, log):
         toks = toks[:start] + [Tok('subst', new, toks[start].pos, toks[start].line)] + toks[qi + 1:]
         # note: do not relex here (a relexed `?` cannot appear: the replacement has none)
         toks = relex(toks)
+
+
+def desugar_iter_mut(toks, log):
+    """R29: `for PAT in EXPR.iter_mut() { BODY }` ->
+         { let mut __imN: usize = 0; while __imN < EXPR.len() { let PAT = &mut EXPR[__imN]; __imN = __imN + 1; BODY } }
+    (N = ordinal of the loop among the loops of the item, so `loop N` invariants keep their numbering; the index is advanced
+    before BODY so that `continue` and `break` in BODY keep their meaning). Only for a BODY-independent receiver EXPR
+    (a place expression such as `self.inner`)."""
+    toks = list(toks)
+    out = []
+    k = 0
+    n = len(toks)
+    ordinal = -1
+    while k < n:
+        t = toks[k]
+        if t.kind == 'ident' and t.text in ('while', 'loop'):
+            ordinal += 1
+        if t.kind == 'ident' and t.text == 'for':
+            ordinal += 1
+            j = k + 1
+            depth = 0
+            in_i = None
+            ob = None
+            while j < n:
+                u = toks[j]
+                if u.kind == 'punct':
+                    if u.text in '([':
+                        depth += 1
+                    elif u.text in ')]':
+                        depth -= 1
+                    elif u.text == '{' and depth == 0:
+                        ob = j
+                        break
+                elif u.kind == 'ident' and u.text == 'in' and depth == 0 and in_i is None:
+                    in_i = j
+                j += 1
+            if ob is not None and in_i is not None:
+                recv = norm(text(toks[in_i + 1:ob]))
+                if recv.endswith('.iter_mut()'):
+                    expr = text(toks[in_i + 1:ob]).strip()[:-len('.iter_mut()')].strip()
+                    pat = text(toks[k + 1:in_i]).strip()
+                    N = ordinal
+                    head = '{ let mut __im%d: usize = 0;\nwhile __im%d < %s.len() ' % (N, N, expr)
+                    inner = ' let %s = &mut %s[__im%d]; __im%d = __im%d + 1;' % (pat, expr, N, N, N)
+                    log.append(('R29', 'for %s in %s.iter_mut() desugared to an index loop (loop #%d)' % (pat, expr, N), t.line))
+                    cb = match_close(toks, ob)
+                    out.append(Tok('subst', head, t.pos, t.line))
+                    out.append(toks[ob])
+                    out.append(Tok('subst', inner, toks[ob].pos, toks[ob].line))
+                    # body (may contain nested loops: recurse on it, ordinals continue)
+                    out.extend(toks[ob + 1:cb])
+                    out.append(toks[cb])
+                    out.append(Tok('subst', ' }', toks[cb].pos, toks[cb].line))
+                    k = cb + 1
+                    continue
+        out.append(t)
+        k += 1
+    return relex(out)
